@@ -6,12 +6,22 @@ The harness replays `Apply::apply_fixpoint` pass by pass (bound: 400 extra passe
 and prints `(passes n G (trace (size mu gen qn scope def) ..))`; `(nonterminating n)` is a
 violation with the input as the failing input; so is a trace that does not decrease (the theorem
 is about the model: a non-decreasing trace of the implementation means model and code differ in a
-way that matters for termination).  `(toolarge n)` is not a violation (the result of substituting a
+way that matters for termination).  `(apply-fixpoint-differs n G)` - the replay converged after n passes but the real
+`Formula::apply_fixpoint`, run afterwards on the same input, returned G - is a violation with the input
+as the failing input (the semantic op `sem_classic_passes` additionally shows that G is not a fixpoint).
+`(toolarge n)` is not a violation (the result of substituting a
 chain of definitions is exponentially large; the loop still terminates) but it is counted.
 The hook fills the evidence: histogram of pass counts, maximum growth factor (largest intermediate
 size / input size, terms included), maximum of passes / (mu + 1), and how often each component of
 the tuple decided a step."""
+import os
 import re
+import sys
+
+sys.path.insert(0, os.path.dirname(os.path.abspath(__file__)))
+import clilib
+import c16lib
+from clilib import vlib, log
 
 COMPONENTS = ["mu", "m_gen", "m_qn", "m_scope", "m_def"]
 
@@ -21,7 +31,85 @@ def parse_trace(out):
     return [tuple(int(x) for x in e.split()) for e in re.findall(r"\(([0-9 ]+)\)", tr)]
 
 
+def _twice(job):
+    """`anthem simplify --portfolio P --strategy fixpoint` on a text, then on its own output"""
+    exe, scratch, idx, portfolio, text = job
+    f1 = clilib.write(os.path.join(scratch, f"t{idx}_{portfolio}.spec"), text)
+    argv = [exe, "simplify", "--portfolio", portfolio, "--strategy", "fixpoint"]
+    r1 = clilib.run(argv + [f1], timeout=60)
+    if r1.timed_out or r1.rc != 0:
+        return ("first", r1.rc, r1.out, b"", r1.timed_out)
+    f2 = clilib.write(os.path.join(scratch, f"t{idx}_{portfolio}.once.spec"), r1.out)
+    r2 = clilib.run(argv + [f2], timeout=60)
+    os.remove(f1)
+    os.remove(f2)
+    return ("both", r2.rc, r1.out, r2.out, r2.timed_out)
+
+
+def cli_idempotence(ctx):
+    """The idempotence oracle of C18 on the REAL BINARY's outputs: `simplify --strategy fixpoint` applied to
+    its own output must print it unchanged (the demo of the property).  Inputs: printed trees of the
+    many-pass families (13 and more passes) and of the redex-rich theory generator (harness ops
+    gen_text_deep / gen_text_theory).  A difference is a violation if the first output reads back as the
+    tree it was printed from (otherwise the second run started from another tree: a printer / parser
+    class of C15, counted as an artefact)."""
+    thorough = ctx.tier == "thorough"
+    exe = clilib.anthem_exe()
+    texts = []
+    for op, n in (("gen_text_deep", 1500 if thorough else 160), ("gen_text_theory", 6000 if thorough else 500)):
+        for ln in vlib.generate(op, ctx.seed, n):
+            texts.append((op, c16lib.sx_unstring(ln.split("\t", 1)[1])))
+    jobs = []
+    with clilib.Scratch("C18idem") as scratch:
+        for i, (op, t) in enumerate(texts):
+            for pf in (("classic", "ht") if op == "gen_text_deep" or i % 3 == 0 else ("classic",)):
+                jobs.append((exe, scratch, i, pf, t))
+        outs = clilib.pmap(_twice, jobs)
+    dist = {"texts": len(texts), "runs": len(jobs), "first_run_rejected": 0, "idempotent": 0, "artefacts": 0, "changed_by_first_run": 0}
+    suspects = []
+    for job, (stage, rc, o1, o2, timed_out) in zip(jobs, outs):
+        ctx.evaluations += 1
+        if stage == "first":
+            dist["first_run_rejected"] += 1      # crashes and hangs are C16's business
+            continue
+        if o1 != job[4]:
+            dist["changed_by_first_run"] += 1
+            ctx.nontrivial.add((job[3], job[4]))
+        if rc == 0 and not timed_out and o1 == o2:
+            dist["idempotent"] += 1
+        else:
+            suspects.append((job, rc, o1, o2))
+    if suspects:
+        rt = vlib.run_lines(vlib.HARNESS_EXE, ["text_theory_roundtrip\t" + c16lib.sx(o1) for _, _, o1, _ in suspects])
+        bad = [(j, rc, o1, o2) for (j, rc, o1, o2), r in zip(suspects, rt) if r.startswith("(ok")]
+        dist["artefacts"] = len(suspects) - len(bad)
+        bad.sort(key=lambda b: len(b[0][4]))
+        for (exe_, _, _, pf, text), rc, o1, o2 in bad[:1]:
+            ctx.violation(f"`anthem simplify --portfolio {pf} --strategy fixpoint` does not return a fixpoint: simplifying its output again changes it",
+                          {"kind": "custom-idem", "argv": ["simplify", "--portfolio", pf, "--strategy", "fixpoint"], "portfolio": pf,
+                           "input_text": text.decode("utf8", "replace"), "simplified_once": o1.decode("utf8", "replace")[:3000],
+                           "simplified_twice": o2.decode("utf8", "replace")[:3000], "second_run_exit": rc, "cases": len(bad)}, True)
+    ctx.distribution["cli_fixpoint_idempotence"] = dist
+    log(f"C18 idempotence of `simplify --strategy fixpoint` on the binary's own output: {dist}")
+
+
+def replay(ctx, cfg, r):
+    import json
+    print(json.dumps(r, indent=1)[:5000])
+    exe = clilib.anthem_exe()
+    with clilib.Scratch("C18idem-replay") as scratch:
+        stage, rc, o1, o2, timed_out = _twice((exe, scratch, 0, r["portfolio"], r["input_text"].encode()))
+    print("simplified once: ", o1[:1500])
+    print("simplified twice:", o2[:1500])
+    if stage == "both" and (o1 != o2 or rc != 0):
+        print(f"VIOLATION property={ctx.prop} replay=(re-run)")
+        sys.exit(1)
+    print("replay: the output is a fixpoint now")
+    sys.exit(0)
+
+
 def extra(ctx, cfg, results):
+    cli_idempotence(ctx)
     for op, (lines, impl, model) in results.items():
         if op not in ("classic_passes", "classic_only_passes"):
             continue
@@ -29,12 +117,16 @@ def extra(ctx, cfg, results):
         passes = {}
         decided = {c: 0 for c in COMPONENTS}
         bad_nt, bad_trace, toolarge, panics = [], [], 0, 0
+        bad_fix = []
         max_growth = (0.0, None)
         max_ratio = (0.0, None)
         max_passes = (0, None)
         for i, o in enumerate(impl):
             if o.startswith("(nonterminating"):
                 bad_nt.append(i)
+                continue
+            if o.startswith("(apply-fixpoint-differs"):
+                bad_fix.append(i)
                 continue
             if o.startswith("(toolarge"):
                 toolarge += 1
@@ -79,6 +171,15 @@ def extra(ctx, cfg, results):
             ctx.violation(f"the fixpoint strategy with the classic portfolio does not terminate on an input of `{op}` (400 extra passes of the real Apply::apply still change the formula)",
                           {"kind": "correspondence", "op": op, "input": inputs[i], "implementation": impl[i], "model": model[i],
                            "nonterminating_cases": len(bad_nt)}, True)
+        if bad_fix:
+            # the replay converged after n passes, the real Formula::apply_fixpoint (called on the same
+            # input afterwards) returned another formula: the loop of /repo is not the loop of the model
+            i = min(bad_fix, key=lambda k: len(inputs[k]))
+            ctx.violation(f"the real Apply::apply_fixpoint does not return the fixpoint that iterating the real Apply::apply reaches on an input of `{op}` "
+                          "(its result is not simplified to a fixpoint: simplifying it again changes it)",
+                          {"kind": "correspondence", "op": op, "input": inputs[i], "implementation": impl[i], "model": model[i],
+                           "sem_op": "sem_" + op, "cases": len(bad_fix)}, True)
+        d["apply_fixpoint_differs"] = len(bad_fix)
         if bad_trace:
             i = min(bad_trace, key=lambda k: len(inputs[k]))
             ctx.violation(f"the termination measure (mu, m_gen, m_qn, m_scope, m_def) does not decrease along the real run of `{op}`",
